@@ -466,7 +466,9 @@ def cancel_case(rng):
     arrivals = []
     for _ in range(rng.randrange(2, 6)):
         arrivals.append([rng.choice([0.1, 0.2, 0.3, 0.5]), 'w', ''.join(rng.choice(alph) for _ in range(rng.randrange(3, 12)))])
-    ops = [dict(mode='c', k='x', pats=[['s', 'QQ']], T=rng.choice([0.337, 0.571]), gap=0)]
+    # what the abandoned call was looking for may well turn up later, while nobody (or the next call) is waiting
+    abandoned = 'QQ' if rng.random() < 0.4 else ''.join(rng.choice(alph) for _ in range(rng.choice([1, 2, 2])))
+    ops = [dict(mode='c', k='x', pats=[['s', abandoned]], T=rng.choice([0.337, 0.571]), gap=0)]
     for _ in range(rng.randrange(1, 3)):
         s_ = ''.join(rng.choice(alph) for _ in range(rng.choice([1, 2])))
         ops.append(dict(mode=rng.choice('aas'), k=rng.choice('xr'), pats=[['s', s_]] if True else [], T=rng.choice([0.571, 1.043]), gap=rng.choice([0.2, 0.5, 1.0])))
@@ -477,6 +479,11 @@ def cancel_case(rng):
 
 
 CORPUS = [
+    # the caller abandons an awaited call; the text it was waiting for arrives afterwards and belongs to the next call
+    dict(kind='fd', arrivals=[[0.1, 'w', 'one '], [0.5, 'w', 'two PROMPT three']],
+         ops=[dict(mode='c', k='x', pats=[['s', 'PROMPT']], T=0.337, gap=0), dict(mode='a', k='x', pats=[['s', 'three']], T=1.043, gap=0.5)]),
+    dict(kind='fd', arrivals=[[0.1, 'w', 'one '], [0.5, 'w', 'two PROMPT three']],
+         ops=[dict(mode='c', k='x', pats=[['s', 'PROMPT']], T=0.337, gap=0), dict(mode='s', k='x', pats=[['s', 'PROMPT']], T=1.043, gap=0.5)]),
     # data before the first await, between awaits, several chunks in one turn, EOF with the last data
     dict(kind='fd', arrivals=[[0.0, 'w', 'hello '], [0.0, 'w', 'world'], [0.3, 'w', ' again'], [0.0, 'c']],
          ops=[dict(mode='a', k='x', pats=[L('world')], T=1.05, gap=0.2), dict(mode='a', k='x', pats=[L('again'), ['E']], T=1.05, gap=0.5),
